@@ -14,14 +14,28 @@
 //! * runs `check <h>` / `hist`, so that the stored keys and records are compared with the
 //!   model's serial log and the oracle checks that every acknowledged command is present
 //!   exactly once (`audit_exact`).
+//!
+//! Creation and deletion are part of the programs: handle `c` does not exist when the threads
+//! start and is created (`add`), commanded, read, deleted (`drop`) and created again by any of
+//! them, through the one long-lived store object 0 as in krill; each program starts with a few
+//! *rounds* in which all threads, released together by a barrier, send an init command for the
+//! same new handle `d<k>`.  Every call is printed with the critical sections it ran (`sec=…`,
+//! from its events in the log): the driver compares them with the generated table of the
+//! store's methods (`FAIL model sections`) and requires ONE section per call (`single_section`);
+//! of the init commands for one handle exactly one may be acknowledged and `command-0` must be
+//! that caller's (`exactly_one_init`).  `drop_aggregate` clears the caches *after* its section
+//! (reviewed exemption, `ES/Sections.lean`): a deletion is therefore serialised with the other
+//! calls by a reader/writer guard of the harness – the calls still interleave call by call.
+//! The first two cases of a run also hold `raceadd` (see `main.rs`): many rounds of init commands
+//! for one new handle from 3–4 threads.
 
 use std::io::Write;
-use std::sync::{Arc, Barrier};
+use std::sync::{Arc, Barrier, RwLock};
 use kharness::{Args, Rng};
 use krill::verif::lockpoint;
 use crate::bag::{BagCmd, BagKind};
-use crate::reg::{RegCmd, RegDetails};
-use crate::{fmt_reg, handle, Sys};
+use crate::reg::{RegCmd, RegDetails, RegInit};
+use crate::{fmt_reg, handle, sections_of, Sys};
 
 #[derive(Clone, Debug)]
 struct Call {
@@ -29,6 +43,8 @@ struct Call {
     line: String,
     /// handle the call locks
     h: String,
+    /// wait for the other threads before the call (a round of init commands)
+    sync: bool,
 }
 
 struct Done {
@@ -38,9 +54,37 @@ struct Done {
     ret: String,
 }
 
-fn gen_program(rng: &mut Rng, tid: u32, len: usize, handles: &[&str], wal: bool) -> Vec<Call> {
+/// A call on the handle that is created and deleted while the threads run (store object 0 only).
+fn gen_lifecycle_call(rng: &mut Rng, actor: &str, h: &str) -> String {
+    match rng.below(100) {
+        0..=27 => format!("add 0 {h} {actor} n{}", rng.below(3)),
+        28..=62 => {
+            let c = match rng.below(10) {
+                0..=4 => format!("add {}", rng.below(4)),
+                5..=6 => format!("sub {}", rng.below(3)),
+                7 => "fail".to_string(),
+                8 => format!("guarded {}", rng.below(4)),
+                _ => format!("name n{}", rng.below(2)),
+            };
+            format!("cmd 0 {h} {actor} {c}")
+        }
+        63..=76 => format!("get 0 {h}"),
+        77..=80 => format!("snap 0 {h}"),
+        _ => format!("drop 0 {h}"),
+    }
+}
+
+fn gen_program(rng: &mut Rng, tid: u32, len: usize, handles: &[&str], wal: bool, rounds: usize) -> Vec<Call> {
     let mut v = Vec::new();
+    for r in 0..rounds {
+        v.push(Call { line: format!("add 0 d{r} t{tid}r{r} n{}", tid % 3), h: format!("d{r}"), sync: true });
+    }
     for k in 0..len {
+        if rng.chance(1, 3) {
+            let actor = format!("t{tid}o{k}");
+            v.push(Call { line: gen_lifecycle_call(rng, &actor, "c"), h: "c".into(), sync: false });
+            continue;
+        }
         let h = if rng.chance(3, 4) { handles[0] } else { handles[rng.below(handles.len() as u64) as usize] };
         let actor = format!("t{tid}o{k}");
         let inst = if rng.chance(3, 4) { 0 } else { 1 };
@@ -65,12 +109,12 @@ fn gen_program(rng: &mut Rng, tid: u32, len: usize, handles: &[&str], wal: bool)
                     8 => "clear".to_string(),
                     _ => "fail".to_string(),
                 };
-                v.push(Call { line: format!("wcmd 0 w {c}"), h: "w".into() });
+                v.push(Call { line: format!("wcmd 0 w {c}"), h: "w".into(), sync: false });
                 continue;
             }
             _ => format!("get 0 {h}"),
         };
-        v.push(Call { line, h: h.to_string() });
+        v.push(Call { line, h: h.to_string(), sync: false });
     }
     v
 }
@@ -91,6 +135,14 @@ fn run_call<const IV: u64>(sys: &Sys<IV>, call: &Call) -> String {
             let i: usize = i.parse().unwrap();
             fmt_reg(sys.stores[i].save_snapshot(&handle(h)))
         }
+        ["add", i, h, actor, name] => {
+            let i: usize = i.parse().unwrap();
+            fmt_reg(sys.stores[i].add(RegInit { handle: handle(h), actor: actor.to_string(), name: name.to_string() }))
+        }
+        ["drop", i, h] => {
+            let i: usize = i.parse().unwrap();
+            if sys.stores[i].drop_aggregate(&handle(h)).is_ok() { "ok".into() } else { "err".into() }
+        }
         ["wcmd", i, h, kind, rest @ ..] => {
             let kind = BagKind::parse(kind, rest.first().copied()).expect("wcmd");
             let i: usize = i.parse().unwrap();
@@ -100,7 +152,7 @@ fn run_call<const IV: u64>(sys: &Sys<IV>, call: &Call) -> String {
     }
 }
 
-fn case<const IV: u64>(out: &mut dyn Write, disk: bool, seed: u64, rng: &mut Rng, threads: usize, len: usize) {
+fn case<const IV: u64>(out: &mut dyn Write, disk: bool, seed: u64, rng: &mut Rng, threads: usize, len: usize, race: Option<(usize, usize)>) {
     let mut sys = Sys::<IV>::new(disk, seed);
     writeln!(out, "config iv={} backend={} => ret=ok", IV, if disk { "disk" } else { "mem" }).unwrap();
     let emit = |out: &mut dyn Write, sys: &mut Sys<IV>, op: &str| {
@@ -114,15 +166,22 @@ fn case<const IV: u64>(out: &mut dyn Write, disk: bool, seed: u64, rng: &mut Rng
     if rng.chance(1, 2) {
         emit(out, &mut sys, "cmd 0 a setup add 2");
     }
+    if let Some((n, rounds)) = race {
+        emit(out, &mut sys, &format!("raceadd {n} {rounds} r"));
+    }
+    let rounds = rng.below(4) as usize;
     let programs: Vec<Vec<Call>> =
-        (0..threads).map(|t| gen_program(&mut rng.fork(), t as u32 + 1, len, &["a", "b"], true)).collect();
+        (0..threads).map(|t| gen_program(&mut rng.fork(), t as u32 + 1, len, &["a", "b"], true, rounds)).collect();
     let sys = Arc::new(sys);
     let barrier = Arc::new(Barrier::new(threads));
+    // `drop_aggregate` clears the caches after its critical section: deletions are serialised with the other calls
+    let drop_guard = Arc::new(RwLock::new(()));
     lockpoint::enable(true);
     let mut joins = Vec::new();
     for (t, prog) in programs.into_iter().enumerate() {
         let sys = sys.clone();
         let barrier = barrier.clone();
+        let drop_guard = drop_guard.clone();
         let tseed = rng.next();
         joins.push(std::thread::spawn(move || {
             let tid = t as u32 + 1;
@@ -132,6 +191,12 @@ fn case<const IV: u64>(out: &mut dyn Write, disk: bool, seed: u64, rng: &mut Rng
             for (k, call) in prog.into_iter().enumerate() {
                 let op = tid as u64 * 100_000 + k as u64;
                 lockpoint::set_op(op);
+                if call.sync {
+                    barrier.wait();
+                }
+                let is_drop = call.line.starts_with("drop ");
+                let _w = if is_drop { Some(drop_guard.write().unwrap_or_else(|e| e.into_inner())) } else { None };
+                let _r = if is_drop { None } else { Some(drop_guard.read().unwrap_or_else(|e| e.into_inner())) };
                 let ret = std::panic::catch_unwind(std::panic::AssertUnwindSafe(|| run_call::<IV>(&sys, &call)))
                     .unwrap_or_else(|_| "panic".to_string());
                 done.push(Done { thread: tid, op, call, ret });
@@ -155,18 +220,24 @@ fn case<const IV: u64>(out: &mut dyn Write, disk: bool, seed: u64, rng: &mut Rng
             .filter(|(_, e)| e.thread == d.thread && e.op == d.op && e.site == "acq" && e.scope.as_deref() == Some(d.call.h.as_str()))
             .map(|(i, _)| i)
             .collect();
-        if acqs.len() != 1 {
-            writeln!(out, "concerr thread={} op={} acquisitions={} call={}", d.thread, d.op, acqs.len(), d.call.line.replace(' ', "_")).unwrap();
+        // a call that ran several sections has no single place in the order: it is printed where its last
+        // section began, and its `sec=` shows all of them (`single_section`)
+        let Some(last) = acqs.last() else {
+            writeln!(out, "concerr thread={} op={} acquisitions=0 call={}", d.thread, d.op, d.call.line.replace(' ', "_")).unwrap();
             continue;
-        }
-        pos.push((acqs[0], di));
+        };
+        pos.push((*last, di));
     }
     pos.sort();
     for (_, di) in &pos {
         let d = &done[*di];
-        writeln!(out, "{} => ret={}", d.call.line, d.ret).unwrap();
+        let sec = sections_of(log.iter().filter(|e| e.thread == d.thread && e.op == d.op), &d.call.h);
+        writeln!(out, "{} => ret={} sec={}", d.call.line, d.ret, sec).unwrap();
     }
-    for h in ["a", "b", "w"] {
+    let round_handles: Vec<String> = (0..rounds).map(|r| format!("d{r}")).collect();
+    let mut logged: Vec<&str> = vec!["a", "b", "c", "w"];
+    logged.extend(round_handles.iter().map(|s| s.as_str()));
+    for h in logged {
         let evs: Vec<String> = log
             .iter()
             .filter(|e| e.scope.as_deref() == Some(h) && e.site != "wait")
@@ -175,8 +246,11 @@ fn case<const IV: u64>(out: &mut dyn Write, disk: bool, seed: u64, rng: &mut Rng
         writeln!(out, "conclog {h} => ev={}", if evs.is_empty() { "-".to_string() } else { evs.join(",") }).unwrap();
     }
     let mut sys = Arc::try_unwrap(sys).ok().expect("sole owner");
-    for op in ["check a", "check b", "wcheck w", "hist 0 a 0 - -", "hist 1 b 0 - -"] {
+    for op in ["check a", "check b", "check c", "wcheck w", "hist 0 a 0 - -", "hist 1 b 0 - -", "hist 0 c 0 - -"] {
         emit(out, &mut sys, op);
+    }
+    for h in &round_handles {
+        emit(out, &mut sys, &format!("check {h}"));
     }
 }
 
@@ -192,10 +266,16 @@ pub fn main(args: &Args) {
         let len = 1 + r.below(args.len as u64) as usize;
         let seed = args.seed.wrapping_mul(1_000_003) + i as u64;
         writeln!(out, "case c{}-{}-{}-iv{}-t{}", args.seed, i, if disk { "disk" } else { "mem" }, if iv0 { 0 } else { 1 }, threads).unwrap();
+        // the first memory and the first disk case of a run also race init commands for one new handle
+        let race = match i {
+            0 => Some((4, if thorough { 1000 } else { 200 })),
+            1 => Some((3, if thorough { 300 } else { 60 })),
+            _ => None,
+        };
         if iv0 {
-            case::<0>(&mut *out, disk, seed, &mut r, threads, len);
+            case::<0>(&mut *out, disk, seed, &mut r, threads, len, race);
         } else {
-            case::<1>(&mut *out, disk, seed, &mut r, threads, len);
+            case::<1>(&mut *out, disk, seed, &mut r, threads, len, race);
         }
         out.flush().unwrap();
     }
